@@ -18,7 +18,7 @@
  * Always logged: {"ev":"mark","task":t,"text":"returned:ok:0"} for every write(-1,"MARK:...")
  * {"ev":"fork","parent":1,"child":2}, {"ev":"exec","task":2,"path":..,"argv":[..],"envp":[..],
  * "envp_null":false,"ret":0,"inj":false}, {"ev":"exit","task":2,"status":1792} (raw wait status),
- * wait4 results carry "reaped":<task>,"wstatus":<raw>.  At the end
+ * wait4 results carry "reaped":<task>,"wstatus":<raw>, chdir carries "path".  At the end
  * {"ev":"end","root_status":..,"timeout":false,"alive_at_root_exit":[..]} ; on timeout
  * {"ev":"timeout","alive":[{"task":1,"in":"read","execd":false},..]} precedes it and the tree is killed.
  * exit status: 0 normal end, 4 timeout, 2 tracer error.
@@ -331,6 +331,15 @@ static void sys_exit(struct task *t, struct user_regs_struct *r)
         if (t->a[1] && rdmem(t->pid, t->a[1], &ws, 4) == 4)
             fprintf(LOG, ",\"wstatus\":%d", ws);
         fprintf(LOG, ",\"reaped\":%d", c ? c->idx : 0);
+    }
+    if (t->nr == SYS_chdir) {
+        char path[4096];
+        struct sbuf b = {0};
+        if (rdstr(t->pid, t->a[0], path, sizeof path) < 0)
+            strcpy(path, "<unreadable>");
+        sb_jstr(&b, path);
+        fprintf(LOG, ",\"path\":%s", b.p);
+        free(b.p);
     }
     if ((t->nr == SYS_pipe2 || t->nr == SYS_pipe) && ret == 0) {
         int fds[2];
